@@ -6,6 +6,7 @@ pub mod determinism;
 pub mod fees;
 pub mod locked;
 pub mod monitors;
+pub mod nfids;
 pub mod node;
 pub mod programs;
 pub mod steps;
